@@ -408,6 +408,25 @@ func (v *V) fragments() {
 					}
 				}
 			}
+			// no OBJECT type is in both sets. "The set of types implementing an interface" can also be read to include
+			// interfaces that implement it (the October 2021 text does not say "object types"; graphql-js counts objects
+			// only): when the two sets meet only through an interface, or one type is the other or implements it, the
+			// reference does not judge
+			at, bt := v.mg.PossibleTypes(parent.Name), v.mg.PossibleTypes(ft.Name)
+			if parent.Kind == "interface" {
+				at = append(at, parent.Name)
+			}
+			if ft.Kind == "interface" {
+				bt = append(bt, ft.Name)
+			}
+			for _, x := range at {
+				for _, y := range bt {
+					if x == y {
+						v.Abstain = append(v.Abstain, "fragment-types-meet-only-through-interfaces")
+						return
+					}
+				}
+			}
 			kind := "inline"
 			if s.Kind == m.SSpread {
 				kind = "spread"
